@@ -202,7 +202,11 @@ proof { assert(self.rest() == s0.skip(k0)); if self.rest().len() > 1 { assert(se
         scanner('openqasm_version'),
         scanner('pragma_or_ident_or_unknown_prefix', " old(self).prevc() == 'p',", ' k == TokenKind::Pragma || k == TokenKind::Ident || k == TokenKind::InvalidIdent,', ret='k'),
         scanner('ident_or_unknown_prefix', " old(self).prevc() == '_' || xid_start(old(self).prevc()),", ' k == TokenKind::Ident || k == TokenKind::InvalidIdent,', ret='k'),
-        scanner('hardware_ident', '', ' k == TokenKind::Dollar || k == TokenKind::HardwareIdent || k == TokenKind::InvalidIdent,', ret='k'),
+        scanner('hardware_ident', '', ''' k == TokenKind::Dollar || k == TokenKind::HardwareIdent || k == TokenKind::InvalidIdent,
+    // `$` followed by digits (separators allowed) is a hardware qubit -- the longest such run; `$` followed by an ASCII character that is
+    // neither is the dollar sign alone
+    (old(self).rest().len() == 0 || (old(self).rest()[0] as u32) < 128) ==> (k == TokenKind::HardwareIdent) == has_dec(old(self).rest().take(run_dec(old(self).rest()) as int))
+        && (k == TokenKind::Dollar || k == TokenKind::HardwareIdent) && eaten(*old(self), *final(self)) == run_dec(old(self).rest()),      //@C15:hardware-qubit''', ret='k'),
         scanner('fake_ident_or_unknown_prefix', '', ' k == TokenKind::InvalidIdent,', ret='k'),
         scanner('float_with_no_leading_digit', *SB['float_with_no_leading_digit'][:2], **SB['float_with_no_leading_digit'][2]),
         scanner('number', *SB['number'][:2], **SB['number'][2]),
